@@ -30,7 +30,7 @@ RULE = (
 )
 ASSUMPTIONS = [
     "allowed outcomes: success, or pyoda_time.utility.InvalidPyodaDataError",
-    "memory exhaustion = MemoryError, or peak resident memory growing by more than 400 MB for one damaged stream (pristine: a few MB)",
+    "memory exhaustion = MemoryError, or peak resident memory growing by more than 200 MB for one damaged stream (pristine: a few MB)",
     "hang / exhaustion is decided by a deterministic Python-call budget, triggered by a 25 s watchdog",
 ]
 
@@ -166,7 +166,7 @@ def _k_fault(c) -> CaseInfo:
         raise Mismatch("memory-exhaustion", "MemoryError while loading / fetching from damaged data") from None
     grown_mb = (resource.getrusage(resource.RUSAGE_SELF).ru_maxrss - rss0) // 1024
     # loading the pristine 130 kB file needs a few MB; hundreds of MB for a damaged one is exhaustion in the making
-    need(grown_mb < 400, "memory-exhaustion", f"peak resident memory grew by {grown_mb} MB while handling the damaged stream")
+    need(grown_mb < 200, "memory-exhaustion", f"peak resident memory grew by {grown_mb} MB while handling the damaged stream")
     inside_zone = any(not h.startswith("field:") and h not in ("header", "eof") for h in hit)
     return CaseInfo(loaded or inside_zone, "fault:loaded" if loaded else "fault:rejected-at-load")
 
@@ -207,7 +207,7 @@ def task_structural_subs(ctx: Ctx, which: str, part: int, parts: int, per_pos: i
             ctx.case("fault", {"file": which, "edits": [["sub", pos, vals[(k + j) % len(vals)]]]})
 
 
-INFLATE_KINDS = ("period-count", "pool-count", "map-count", "field-length", "pool-string-length", "pool-index", "rule-month")
+INFLATE_KINDS = ("period-count", "pool-count", "map-count", "field-length", "pool-string-length", "pool-index", "rule-month", "version-length")
 
 
 def task_inflate(ctx: Ctx, which: str, part: int, parts: int) -> None:
@@ -223,15 +223,25 @@ def task_inflate(ctx: Ctx, which: str, part: int, parts: int) -> None:
     marks = [(p, k) for p, k in db.marks if k in INFLATE_KINDS]
     for z in db.zones.values():
         marks += [(p, k) for p, k in z.marks if k in INFLATE_KINDS]
+    # the inline (non-pooled) version string's length prefix is a count too
+    marks += [(ps, "version-length") for fid, fs, ps, pe in db.fields if fid == 2]
     marks.sort()
     size = len(raw(which))
+    # one representative of every kind is always taken (whatever the partition), so the quick tier inflates every
+    # kind of count at least once per file
+    first_of_kind: dict[str, int] = {}
+    for pos, kind in marks:
+        first_of_kind.setdefault(kind, pos)
+    always = set(first_of_kind.values()) if part == 0 else set()
     for i, (pos, kind) in enumerate(marks):
-        if i % parts != part or pos + 4 > size or ctx.should_abort():
+        if (i % parts != part and pos not in always) or pos + 4 > size or ctx.should_abort():
             continue
         big = [0xFF, 0xFF, 0xFF, 0x7F]
         ctx.case("fault", {"file": which, "edits": [["sub", pos + j, big[j]] for j in range(4)]})
         ctx.case("fault", {"file": which, "edits": [["ins", pos, b] for b in reversed(big)]})
         ctx.case("fault", {"file": which, "edits": [["ins", pos, 0xFF], ["ins", pos, 0xFF], ["ins", pos, 0xFF]]})
+        # four continuation bytes in front: the original byte becomes the top bits (up to 2^31 for a small count)
+        ctx.case("fault", {"file": which, "edits": [["ins", pos, 0xFF], ["ins", pos, 0xFF], ["ins", pos, 0xFF], ["ins", pos, 0xFF]]})
 
 
 # --- coverage-guided campaign (atheris / libFuzzer) over a small real database ----------------------------------------
@@ -330,7 +340,7 @@ def _k_bytes(c) -> CaseInfo:
     except MemoryError:
         raise Mismatch("memory-exhaustion", "MemoryError while loading / fetching from damaged data") from None
     grown_mb = (resource.getrusage(resource.RUSAGE_SELF).ru_maxrss - rss0) // 1024
-    need(grown_mb < 400, "memory-exhaustion", f"peak resident memory grew by {grown_mb} MB while handling the damaged stream")
+    need(grown_mb < 200, "memory-exhaustion", f"peak resident memory grew by {grown_mb} MB while handling the damaged stream")
     return CaseInfo(tail != pristine, "bytes:loaded" if loaded else "bytes:rejected-at-load")
 
 
@@ -399,6 +409,27 @@ def task_atheris(ctx: Ctx, shard: int, runs: int) -> None:
         shutil.rmtree(work, ignore_errors=True)
 
 
+def task_field_ids(ctx: Ctx, which: str, part: int, parts: int) -> None:
+    """Deterministic sweep over the framing of every top-level field: its id byte becomes another known id, an
+    unknown id, or disappears (a field that goes missing / arrives twice / changes kind)."""
+    data = raw(which)
+    db = c06.ref_db(which)
+    for i, (fid, fstart, pstart, pend) in enumerate(db.fields):
+        if i % parts != part or ctx.should_abort():
+            continue
+        rare = fid != 1  # the few non-zone fields get every value, the 350 zone fields a panel
+        vals = [v for v in (range(0, 10) if rare else (0, 3, 5, 8)) if v != fid] + [0x7F, 0xFF]
+        for v in vals:
+            ctx.case("fault", {"file": which, "edits": [["sub", fstart, v]]})
+        ctx.case("fault", {"file": which, "edits": [["del", fstart, 0]]})
+        if rare:
+            # drop the whole field (its bytes), and duplicate its id+length header
+            n = pend - fstart
+            if n <= 4:
+                ctx.case("fault", {"file": which, "edits": [["del", fstart + j, 0] for j in range(n)]})
+            ctx.case("fault", {"file": which, "edits": [["ins", fstart, data[fstart + j]] for j in range(min(2, n))]})
+
+
 def task_hyp(ctx: Ctx, which: str, shard: int, n: int) -> None:
     s = sub_seed(ctx.seed, "c20", which, shard)
     marks, _ = structure(which)
@@ -441,6 +472,8 @@ def tasks(tier: str, seed: int) -> list[Task]:
         parts = 8 if not thorough else 16
         for j in range(parts):
             out.append(Task("task_structural_subs", {"which": which, "part": j + (0 if thorough else 0), "parts": parts * (1 if thorough else 10), "per_pos": 3 if thorough else 1}, f"subs-{which}-{j}"))
+        for j in range(2):
+            out.append(Task("task_field_ids", {"which": which, "part": j, "parts": 2}, f"field-ids-{which}-{j}"))
         for j in range(4):
             out.append(Task("task_inflate", {"which": which, "part": j, "parts": 4 * (1 if thorough else 12)}, f"inflate-{which}-{j}"))
         for j in range(4 if not thorough else 8):
